@@ -392,6 +392,22 @@ impl HostCtx {
                     inst.as_nanos()
                 )
             }
+            "spawn_ticker" => {
+                // a background task with a destructor: proves that crash drops every task of the host
+                let h = self.h;
+                tokio::task::spawn_local(async move {
+                    let _g = DropGuard(h);
+                    loop {
+                        tokio::time::sleep(Duration::from_millis(1)).await;
+                        log(format!("EV ticker {h}"));
+                    }
+                });
+                "ok".into()
+            }
+            "countof" => {
+                let c = turmoil::verif::host_counts(ip(t[1]));
+                format!("ok streams={} udp={} tcpb={}", c.tcp_streams, c.udp_binds, c.tcp_binds)
+            }
             "net_partition" => { turmoil::partition(ip(t[1]), ip(t[2])); "ok".into() }
             "net_partition1" => { turmoil::partition_oneway(ip(t[1]), ip(t[2])); "ok".into() }
             "net_repair" => { turmoil::repair(ip(t[1]), ip(t[2])); "ok".into() }
@@ -430,6 +446,14 @@ impl HostCtx {
                 format!("err {}", errkind(&e))
             }
         }
+    }
+}
+
+struct DropGuard(usize);
+
+impl Drop for DropGuard {
+    fn drop(&mut self) {
+        log(format!("EV guarddrop {}", self.0));
     }
 }
 
